@@ -373,6 +373,18 @@ class Pool:
             t.join()
         if errors:
             raise errors[0]
+        # A request that did not answer in time may only have been starved (other checks, TLC, a loaded machine):
+        # the first few are asked again on an otherwise idle pool with three times the patience.  A real hang hangs again.
+        hung = [i for i, r in enumerate(out) if r is not None and "hang" in r][:6]
+        if hung:
+            w = _Worker(self.binary, self.env, self.memlimit_kb)
+            try:
+                for i in hung:
+                    again = w.run_chunk([reqs[i]], timeout * 3)[0]
+                    if again is not None and "hang" not in again:
+                        out[i] = again
+            finally:
+                w.close()
         for i, r in enumerate(out):
             if r is None:
                 raise Machinery("no response for request %d" % i)
